@@ -655,7 +655,7 @@ var C06 = register(&HistProp{ID: "C06",
 	},
 	Next: func(g *sim.G, i int) *sim.Op {
 		g.NoForge = true
-		return Mix{Send: 8, Dep: 8, Replace: 3, RepDep: 4, Admin: 2, Multi: 1, DepValid: 90, ReplaceValid: 90, AdminHolder: 90, Rollback: 3,
+		return Mix{Send: 8, Dep: 8, Replace: 3, RepDep: 4, Admin: 2, Multi: 1, DepValid: 90, ReplaceValid: 90, AdminHolder: 90, Rollback: 3, MsgrProbe: 4,
 			AdminTypes: []string{"UpdateMaxMessageBodySize", "AddRemoteTokenMessenger", "RemoveRemoteTokenMessenger", "SetMaxBurnAmountPerMessage", "EnableAttester", "UpdateSignatureThreshold"}}.next(g)
 	},
 	MinOps: 1, MaxOps: 20, New: func() Checker { return &c06{} },
@@ -777,7 +777,7 @@ func (c *c09) Summary(w *sim.World) (string, []string) {
 var C09 = register(&HistProp{ID: "C09",
 	Genesis: func(t *rapid.T) *sim.GenSpec { return sim.DrawGenesis(t, sim.GenOpts{BigBalances: true, Decoys: true}) },
 	Next: func(g *sim.G, i int) *sim.Op {
-		return Mix{Send: 5, Dep: 5, Replace: 7, RepDep: 7, Admin: 4, DepValid: 92, ReplaceValid: 50, AdminHolder: 90, Rollback: 5, AttProbe: 3,
+		return Mix{Send: 5, Dep: 5, Replace: 7, RepDep: 7, Admin: 4, DepValid: 92, ReplaceValid: 50, AdminHolder: 90, Rollback: 5, AttProbe: 3, MsgrProbe: 3,
 			AdminTypes: []string{"PauseBurningAndMinting", "UnpauseBurningAndMinting", "UnpauseBurningAndMinting", "PauseSendingAndReceivingMessages", "UnpauseSendingAndReceivingMessages", "UnpauseSendingAndReceivingMessages",
 				"EnableAttester", "DisableAttester", "UpdateSignatureThreshold", "UpdateMaxMessageBodySize"}}.next(g)
 	},
